@@ -120,4 +120,8 @@ def check_state_for_iface(rep, prog, rule):
     for ob in I.obs.values():
         if not ob.ok:
             rep.fail(rule + '.ub', 'state_for_iface|%s' % ob.kind, ob.msg, node=ob.node, function=ob.fn)
+    # ... and the lookup is the only code that touches the list of records: a handler walking it would read or write the
+    # record of another interface (shared icon buffers, cross-interface gates)
+    from .c17 import global_use_rule
+    global_use_rule(rep, prog, rule)
     return kinds
